@@ -70,10 +70,13 @@ func (j *judge) explore(nodes map[string]*node, bp BatchProject, seed, pidx uint
 			if prm.Loc == "context" {
 				continue
 			}
-			for _, mode := range []string{"omit", "garble", "violate"} {
+			for _, mode := range []string{"omit", "garble", "violate", "wrong-location"} {
+				if mode == "wrong-location" && (prm.Loc == "body" || prm.Loc == "path") {
+					continue
+				}
 				for k := 0; k < reps; k++ {
 					p := pl.build(ri, "damaged", map[string]string{prm.GoName: mode}, false)
-					if p.Expect.Outcome == "422" || mode == "omit" {
+					if p.Expect.Outcome == "422" || mode == "omit" || mode == "wrong-location" {
 						add(p)
 					}
 				}
@@ -114,6 +117,17 @@ func (j *judge) explore(nodes map[string]*node, bp BatchProject, seed, pidx uint
 				pl.authScript(p, projgen.Pick(r, []string{"refuse-all", "refuse-all", "random"}))
 				add(p)
 			}
+			// the callback itself crashes on the first alternative (all others refuse): only the safety
+			// invariant is judged - no controller code without an approval
+			{
+				p := pl.build(ri, "auth-callback-panics", nil, false)
+				pl.authScript(p, "refuse-all")
+				first := rt.Security[0]
+				p.Auth[checkKey(first.Scheme, first.Scopes)] = AuthDecision{Kind: "panic"}
+				p.Expect.Policy = "the authorization callback panics"
+				p.Expect.Outcome = "unjudged"
+				add(p)
+			}
 			// the client went away before the request was served: whatever the router answers, no
 			// controller code may run without an approval (only C03's safety invariant is judged)
 			for _, k := range []string{"refuse-all", "refuse-first"} {
@@ -140,6 +154,18 @@ func (j *judge) explore(nodes map[string]*node, bp BatchProject, seed, pidx uint
 				p.Ctl.RetJSON = ret
 			}
 			add(p)
+		}
+		// nil pointer / nil slice / empty slice results (JSON encoding must agree across engines)
+		if rt.M.Ret == "value" && (rt.M.RetType.Ptr || rt.M.RetType.Slice) {
+			for _, js := range []string{"null", "[]"} {
+				if js == "[]" && !rt.M.RetType.Slice {
+					continue
+				}
+				p := pl.build(ri, "controller-script", nil, false)
+				p.Ctl = CtlScript{RetJSON: js}
+				p.Tags = append(p.Tags, "nil-or-empty-result")
+				add(p)
+			}
 		}
 		// a response payload that violates its own field validators (only matters with validateResponsePayload)
 		if rt.M.Ret == "value" && rt.M.RetType.Kind == "struct" && !rt.M.RetType.Slice {
